@@ -2476,11 +2476,31 @@ class CppEmitter(Visitor):
         """
         if not e.args:
             return 'true' if isinstance(e, And) else 'false'
-        args = [self._visit_expr(a, ctx) for a in e.args]
-        if len(args) == 1:
-            return args[0]
+        parts = [self._captured(a, ctx) for a in e.args]
+        if len(parts) == 1:
+            self._replay(parts[0][1])
+            return parts[0][0]
         op = '&&' if isinstance(e, And) else '||'
-        return '(' + f' {op} '.join(args) + ')'
+        # the first operand always runs, so its statements stay where they are
+        self._replay(parts[0][1])
+        if not any(stmts for _, stmts in parts[1:]):
+            return '(' + f' {op} '.join(expr for expr, _ in parts) + ')'
+        # A later operand that needs statements of its own (a reduction over a
+        # list, say) runs only if the operands before it did not decide the
+        # result: `len(xs) > 0 and max(xs) > 1`.
+        tmp = self._fresh_temp()
+        self.writer.add_line(f'bool {tmp} = {parts[0][0]};')
+        depth = 0
+        for expr, stmts in parts[1:]:
+            self.writer.add_line(f'if ({tmp}) {{' if isinstance(e, And) else f'if (!{tmp}) {{')
+            self.writer.indent()
+            depth += 1
+            self._replay(stmts)
+            self.writer.add_line(f'{tmp} = {expr};')
+        for _ in range(depth):
+            self.writer.dedent()
+            self.writer.add_line('}')
+        return tmp
 
     def _emit_min_max(self, e: 'Min | Max', ctx) -> str:
         """Reduce an ``n``-ary ``min`` / ``max`` to nested pairwise steps.
@@ -3497,13 +3517,32 @@ class CppEmitter(Visitor):
             # converted into it — see :meth:`_emit_at`.
             return self._emit_at(e, out_ty, ctx)
         cond = self._visit_expr(e.cond, ctx)
-        ift = self._visit_expr(e.ift, ctx)
-        iff = self._visit_expr(e.iff, ctx)
+        ift, ift_stmts = self._captured(e.ift, ctx)
+        iff, iff_stmts = self._captured(e.iff, ctx)
         ift_ty = self._scalar_storage_for_expr(e.ift)
         iff_ty = self._scalar_storage_for_expr(e.iff)
         ift = self._maybe_cast(ift, ift_ty, out_ty, at=e, src=e.ift)
         iff = self._maybe_cast(iff, iff_ty, out_ty, at=e, src=e.iff)
-        return f'({cond} ? {ift} : {iff})'
+        if not ift_stmts and not iff_stmts:
+            return f'({cond} ? {ift} : {iff})'
+        # An arm that needs statements of its own (a reduction loop, a
+        # temporary) must run only when it is the one selected --
+        # `max(xs) if len(xs) > 0 else 0` reads `xs[0]` -- so the arms go into
+        # the branches of an `if` that assigns a temporary.
+        tmp = self._fresh_temp()
+        self.writer.add_line(f'{out_ty.format()} {tmp};')
+        self.writer.add_line(f'if ({cond}) {{')
+        self.writer.indent()
+        self._replay(ift_stmts)
+        self.writer.add_line(f'{tmp} = {ift};')
+        self.writer.dedent()
+        self.writer.add_line('} else {')
+        self.writer.indent()
+        self._replay(iff_stmts)
+        self.writer.add_line(f'{tmp} = {iff};')
+        self.writer.dedent()
+        self.writer.add_line('}')
+        return tmp
 
     def _visit_indexed_assign(self, stmt: IndexedAssign, ctx):
         # ``xs[i1]…[iN] = e`` is in-place mutation in C++.  The
